@@ -930,7 +930,19 @@ def tokenize(content: str, lenient: bool = False) -> tuple[list[Token], list[Any
                     if "." in matched_text or "e" in matched_text.lower():
                         value = float(matched_text)
                     else:
-                        value = int(matched_text)
+                        try:
+                            value = int(matched_text)
+                        except ValueError as e:
+                            # Python refuses integer literals beyond sys.get_int_max_str_digits()
+                            # (4300 by default): report it as a positioned lexer error like any
+                            # other unreadable token instead of leaking ValueError.
+                            raise LexerError(
+                                f"Integer literal of {len(matched_text)} characters is too long to read. "
+                                "Quote it to keep it as text.",
+                                line,
+                                column,
+                                "E005",
+                            ) from e
                     # Store raw lexeme for multi-word value reconstruction
                     raw_lexeme = matched_text
                 elif token_type == TokenType.BOOLEAN:
